@@ -158,6 +158,19 @@ impl<T: Clone> NumbatList<T> {
     }
 }
 
+#[cfg(feature = "verif")]
+impl<T: Clone> NumbatList<T> {
+    /// Verification hook: (allocation address, strong count, allocation contents, view).
+    pub fn verif_repr(&self) -> (usize, usize, Vec<T>, Option<(usize, usize)>) {
+        (
+            Arc::as_ptr(&self.alloc) as usize,
+            Arc::strong_count(&self.alloc),
+            self.alloc.iter().cloned().collect(),
+            self.view,
+        )
+    }
+}
+
 impl From<NumbatList<Value>> for Value {
     fn from(list: NumbatList<Value>) -> Self {
         Value::List(list)
